@@ -23,7 +23,8 @@ func init() {
 			"every slice built in map-iteration order in lintcmd, lintcmd/runner, config, go/loader and sarif is sorted before any order-sensitive use or is listed with a reason, and nothing is printed or sent from inside a loop over a map (R6.4); " +
 			"the comparator used before printing orders by every field that the formatters print or that de-duplication compares (R6.5). " +
 			"It does NOT decide the absence of races inside analyzers' own data structures, the Go scheduler, or go list." +
-			" Also decided: filterIgnored tests every directive against every problem, so its outcome does not depend on the map-iteration order in which directives arrive.",
+			" Also decided: filterIgnored tests every directive against every problem, so its outcome does not depend on the map-iteration order in which directives arrive." +
+			" A handler releases its worker slot before it sends ready dependents to the unbuffered queue.",
 		RuleText:    "whole-module SSA; call graph VTA∘CHA plus callback over-approximation; lock-held dominance, happens-before ordering as CFG path queries, map-order taint with sort sanitisers, comparator chain extraction",
 		Assumptions: []string{"the happens-before edge between a finished action and its dependents is the atomic decrement of pending followed by the channel send (Go memory model)", "analyzers do not start goroutines of their own that outlive Run"},
 		Run:         runC06,
